@@ -530,9 +530,11 @@ def c14():
     for order, on in ((0, "down"), (1, "level"), (2, "up")):
         for height in (0, 1, 2, 3):
             q = "quick" if height in (1, 2) else "thorough"
-            add("C14", f"c14_copy_within_owned_3x3_{on}_h{height}", f"c14::copy_within(0, 3, 3, 0, 0, 3, 3, {order}, {height}, false)", 7, q)
-            add("C14", f"c14_copy_within_view_3x3_{on}_h{height}", f"c14::copy_within(1, 4, 4, 1, 1, 4, 4, {order}, {height}, false)", 7,
-                "quick" if height == 2 else "thorough", also=["C04"] if height == 2 else [])
+            # a vertical move needs room: a source as tall as the array can only stay level
+            if order == 1 or height < 3:
+                add("C14", f"c14_copy_within_owned_3x3_{on}_h{height}", f"c14::copy_within(0, 3, 3, 0, 0, 3, 3, {order}, {height}, false)", 7, q)
+                add("C14", f"c14_copy_within_view_3x3_{on}_h{height}", f"c14::copy_within(1, 4, 4, 1, 1, 4, 4, {order}, {height}, false)", 7,
+                    "quick" if height == 2 else "thorough", also=["C04"] if height == 2 else [])
             add("C14", f"c14_copy_within_owned_4x4_{on}_h{height}", f"c14::copy_within(0, 4, 4, 0, 0, 4, 4, {order}, {height}, false)", 7, "thorough")
             add("C14", f"c14_copy_within_owned_2x4_{on}_h{height}", f"c14::copy_within(0, 2, 4, 0, 0, 2, 4, {order}, {height}, false)", 7, "thorough")
     add("C14", "c14_copy_within_rejected_owned_3x3", "c14::copy_within(0, 3, 3, 0, 0, 3, 3, 0, 0, true)", 7, kind="panic")
